@@ -1,9 +1,11 @@
 #include "simk.h"
 
-extern const struct driver drv_smoke, drv_c02;
+extern const struct driver drv_smoke, drv_c02, drv_c03, drv_c14;
 
 const struct driver *const all_drivers[] = {
 	&drv_smoke,
 	&drv_c02,
+	&drv_c03,
+	&drv_c14,
 	NULL,
 };
